@@ -43,8 +43,8 @@ func InterpolateInExponentAt[C algebra.ModuleElement[C, S], S algebra.FiniteFiel
 	}
 
 	out := module.OpIdentity()
-	for i, basisCoeff := range basisCoeffs.Coefficients() {
-		out = out.Op(values[i].ScalarOp(basisCoeff))
+	for i, value := range values {
+		out = out.Op(value.ScalarOp(basisCoeffs.Coefficients()[i]))
 	}
 	return out, nil
 }
